@@ -54,11 +54,41 @@ type xQ struct{ N *xNode }
 
 type xFlagKey struct{}
 
+// xErr builds the error of a failing resolver; the Go shape of the error depends on the code so
+// that every shape occurs: safe, wrapped-as-safe, plain, %w-wrapping of a safe error, panic.
 func xErr(v *xVal) error {
 	if v.Safe {
-		return graphql.NewSafeError("S%d", v.Code)
+		if v.Code%2 == 0 {
+			return graphql.NewSafeError("S%d", v.Code)
+		}
+		return graphql.WrapAsSafeError(fmt.Errorf("inner-secret-%d", v.Code), "S%d", v.Code)
 	}
-	return fmt.Errorf("E%d", v.Code)
+	switch v.Code % 3 {
+	case 0:
+		return fmt.Errorf("E%d", v.Code)
+	case 1:
+		return fmt.Errorf("E%d (%w)", v.Code, graphql.NewSafeError("hidden-safe-text"))
+	default:
+		panic(fmt.Sprintf("E%d", v.Code))
+	}
+}
+
+// xGoErrEnc is the model's GoErr for the same error.
+func xGoErrEnc(code int, safe bool) interface{} {
+	if safe {
+		if code%2 == 0 {
+			return map[string]interface{}{"k": "safe", "t": code}
+		}
+		return map[string]interface{}{"k": "wrapSafe", "t": code, "inner": map[string]interface{}{"k": "plain", "t": 1000000 + code}}
+	}
+	switch code % 3 {
+	case 0:
+		return map[string]interface{}{"k": "plain", "t": code}
+	case 1:
+		return map[string]interface{}{"k": "wrapf", "t": code, "inner": map[string]interface{}{"k": "safe", "t": 2000000}}
+	default:
+		return map[string]interface{}{"k": "panic", "t": code}
+	}
 }
 
 func wrapA(n *xNode) *XA {
@@ -1074,17 +1104,26 @@ type xErrInfo struct {
 
 func parseXErr(err error) xErrInfo {
 	s := err.Error()
-	info := xErrInfo{Raw: s}
+	info := xErrInfo{Raw: firstN(s, 200)}
 	msg := s
-	if i := strings.LastIndex(s, ": "); i >= 0 {
+	if i := strings.Index(s, "graphql: panic: "); i >= 0 {
+		msg = s[i+len("graphql: panic: "):]
+		if i >= 2 {
+			info.Path = strings.Split(s[:i-2], ".")
+		}
+	} else if i := strings.LastIndex(s, ": "); i >= 0 {
 		msg = s[i+2:]
 		info.Path = strings.Split(s[:i], ".")
 	}
 	if strings.HasPrefix(msg, "S") {
 		info.Safe = true
 	}
+	j := 1
+	for j < len(msg) && msg[j] >= '0' && msg[j] <= '9' {
+		j++
+	}
 	if len(msg) > 1 {
-		info.Code, _ = strconv.Atoi(msg[1:])
+		info.Code, _ = strconv.Atoi(msg[1:j])
 	}
 	return info
 }
